@@ -30,6 +30,7 @@ import core
 from core import enc_str, enc_bool, enc_opt_int
 
 import c05_editor as E
+import c05_skel as S
 from prompt_toolkit.buffer import Buffer, EditReadOnlyBuffer
 from prompt_toolkit.document import Document
 from prompt_toolkit.enums import EditingMode
@@ -42,55 +43,94 @@ from prompt_toolkit.validation import ValidationError, Validator
 
 ID = "C05"
 DRIVER = "drv_c05"
-PROPS = ["Ptk.Props.C05"]
+PROPS = ["Ptk.Props.C05", "Ptk.Props.C05Skel"]
 ANCHORS = ["src/prompt_toolkit/buffer.py", "src/prompt_toolkit/key_binding/key_processor.py",
            "src/prompt_toolkit/key_binding/vi_state.py", "src/prompt_toolkit/key_binding/bindings/vi.py",
            "src/prompt_toolkit/key_binding/bindings/emacs.py", "src/prompt_toolkit/key_binding/bindings/basic.py",
            "src/prompt_toolkit/key_binding/bindings/named_commands.py",
            "src/prompt_toolkit/key_binding/bindings/search.py",
            "src/prompt_toolkit/key_binding/bindings/completion.py", "src/prompt_toolkit/shortcuts/prompt.py",
-           "src/prompt_toolkit/filters/app.py"]
-TECHNIQUE = ("Lean 4 proof over a hand-written executable model of the editor's choke points + differential "
-             "correspondence and API-trace refinement against the real editor + key-sequence search (partial)")
-LEVEL_TEXT = ("PARTIAL. Lean 4 theorems over an executable model of the choke points every key handler acts through: "
-              "for every program over the Buffer state-writing API 0 <= cursor <= len(text), the selection anchor and "
-              "the multiple cursors stay inside the text (every text change clears them), undo/redo never build an "
-              "ill-formed Document; after _call_handler returns normally in Vi navigation mode the cursor is not past "
-              "the last character of a non-empty line, for an arbitrary handler; input_mode=NAVIGATION clears the "
-              "pending operator and digraph; EditReadOnlyBuffer never leaves _call_handler; accept hands exactly the "
-              "buffer text to exit(). The model is tied to /repo by a differential correspondence and by replaying, on "
-              "the model, the API calls the real handlers perform while the real editor is driven key by key. "
-              "Crash-freedom and the invariants of the full key state machine are decided by SEARCH only "
+           "src/prompt_toolkit/filters/app.py", "src/prompt_toolkit/search.py",
+           "src/prompt_toolkit/key_binding/key_bindings.py", "src/prompt_toolkit/key_binding/emacs_state.py"]
+TECHNIQUE = ("Lean 4 proof over hand-written executable models (the editor's choke points; the MODE SKELETON run over the "
+             "regenerated table of all key bindings) + differential correspondence, API-trace refinement and per-key "
+             "skeleton refinement against the real editor + key-sequence search (partial)")
+LEVEL_TEXT = ("PARTIAL. Two Lean 4 models, both tied to /repo on every run. (1) MODE SKELETON: the projection of the editor "
+              "to (Vi input mode, temporary navigation mode, pending operator + count, digraph wait + symbol, selection "
+              "type / shift mode of the default and the search buffer, quoted insert, Vi/Emacs macro recording, numeric "
+              "argument, search focus, key buffer, input queue); the model runs KeyProcessor._process / process_keys / "
+              "_call_handler over the table of ALL 606 key bindings of a PromptSession (keys, filter expression, eager, "
+              "handler; regenerated from the running code), evaluates the filters of filters/app.py on the skeleton "
+              "and applies a hand-written skeleton effect per handler (228 handler labels; the labels and the skeleton-"
+              "relevant statements of every handler body are regenerated and pinned). PROVED for every "
+              "table satisfying kernel-decided side conditions, every skeleton state, key and data value: outside a "
+              "quoted insert and with no key sequence pending, Escape calls exactly one handler and ends in NAVIGATION "
+              "with no pending operator, count or digraph (including a selection started by C-o v while input_mode is "
+              "INSERT); a second Escape changes nothing; a quoted insert lasts exactly one key; in Emacs mode Escape ends an "
+              "incremental search at once (eager binding) although it is a prefix key; the numeric argument lasts for "
+              "exactly one command; keys arriving after the application is done are not executed; by induction over "
+              "arbitrary key sequences: at most one of {pending operator, digraph wait, selection} and exactly one of "
+              "the eight Vi mode filters holds in every reachable state. (2) CHOKE POINTS: for every program over the "
+              "Buffer state-writing API 0 <= cursor <= len(text), selection anchor and multiple cursors stay inside the "
+              "text, undo/redo never build an ill-formed Document; _fix_vi_cursor_position after an arbitrary handler; "
+              "input_mode=NAVIGATION clears operator and digraph; EditReadOnlyBuffer never leaves _call_handler; accept "
+              "hands exactly the buffer text to exit(). Tie: differential correspondence of the API, replay of every API "
+              "call the real handlers make, and after EVERY key of every session the model's skeleton, the handlers it "
+              "dispatched and its filter values are compared with the real editor. Crash-freedom ('no exception "
+              "escapes') and the cursor invariants of the individual key handlers are decided by SEARCH only "
               "(enumerated and random key sequences on the real editor, invariants asserted after every key)")
-LEVEL_NOTE = ("trusted: Lean kernel, axioms propext/Classical.choice/Quot.sound only; the hand-written model "
-              "(correspondence- and trace-checked, not proved equal to the Python); the AST pin of the writes that "
-              "by-pass the Buffer API; the key-sequence part is search, not proof")
+LEVEL_NOTE = ("trusted: Lean kernel, axioms propext/Classical.choice/Quot.sound only; the hand-written models "
+              "(correspondence-, trace- and per-key skeleton-checked, not proved equal to the Python); per handler call "
+              "the model receives observed DATA bits (text changed, EditReadOnlyBuffer raised, anchor written, cursor "
+              "moved, application finished) and the values of the filter atoms it does not evaluate itself - the theorems "
+              "hold for every value of them; the AST pin of the writes that by-pass the Buffer API; the key-sequence "
+              "part is search, not proof")
 RULE = ("api: every single op from every small state (exhaustive), then seeded random API programs; call: random "
         "handler programs through the real KeyProcessor._call_handler under random Vi states; accept: "
         "validate_and_handle with/without a failing validator; keys: every single bound key and (thorough) every "
         "key pair from Vi navigation / Vi insert / Emacs states, then seeded random key sequences (length <= 60, "
         "numeric arguments, registers, macros, searches, pastes) over emacs/vi x single/multi-line x "
-        "read-only/writable x documents incl. empty text, empty lines, wide chars, with history and clipboard. "
-        "A case is non-trivial when at least one op / key changes the buffer state")
+        "read-only/writable x documents incl. empty text, empty lines, wide chars, with history and clipboard; "
+        "skeleton: every sequence of key-class representatives up to a length bound from 8 start modes, the "
+        "temporary-navigation families (insert/replace/search mode, C-o, selection/operator/digraph/count/<any> key, "
+        "motions, Escape, probe key) and selection+Escape from every mode. After every key the model's skeleton, "
+        "dispatched handlers and filter values are compared with the real editor. A case is non-trivial when at "
+        "least one op / key changes the buffer state or calls a handler")
 EXHAUSTIVE = True
 EXHAUSTIVE_SCOPE = {
     "quick": "api: texts over {a,\\n} len<=2 x all cursors x every single op; keys: every bound key once from 5 "
              "editor states x 3 documents; Vi block insert (C-v motion I|A + one key) and completion-menu "
-             "sequences (starter, count, navigation key) in full; samples of the other thorough families",
+             "sequences (starter, count, navigation key) in full; samples of the other thorough families; skeleton: "
+             "all pairs over 34 Vi key-class representatives from navigation mode, 13 command keys x 34 from insert "
+             "mode, 20 x 37 Emacs pairs, every single representative (54 Vi / 37 Emacs) from 8 start modes, the C-o "
+             "families (4 modes x 21 heads x 4 motions) and selection+Escape (8 modes x 9 selection keys x rw/ro) in full",
     "thorough": "api: texts over {a,\\n,世} len<=3 x all cursors x every single op; keys: every bound key once "
                 "from 5 editor states x 3 documents, and every ordered pair over 116 keys (all named keys + 48 "
                 "printable command keys) from Vi navigation, and named-first pairs from Vi insert and Emacs; the Vi "
                 "grammar [count] operator (12) x motion/text-object (79) x 3 documents and visual mode (3) x object x "
                 "operator (14); Emacs numeric arguments (-, 0, -3, 12) before every key x 3 documents x 3 clipboards; Vi block insert "
                 "(10 motions x I|A x all 1- and 2-key tails over 7 keys x 5 documents); completion menus (starter x "
-                "count x navigation x navigation, Vi and Emacs, 3 documents)",
+                "count x navigation x navigation, Vi and Emacs, 3 documents); skeleton: all pairs over 54 Vi / 37 Emacs "
+                "key-class representatives from 8 start modes, triples (8 + 18 first keys) x 34 x 34 in Vi and "
+                "12 x 24 x 24 in Emacs, the C-o and selection+Escape families in full",
 }
 TRUSTED = ["harness/c05.py + c05_editor.py: the tracing Buffer subclass logs every call of a state-writing primitive "
            "(outermost only) and the state after it; key sessions are run once per check, inside the generating "
            "worker, which also pipes the logged calls through the compiled Lean driver and compares line by line "
            "(core.py gets the full line lists only for sessions that diverged, and on --replay)",
+           "harness/c05_skel.py + SkSession: print the skeleton projection of the live editor, the handler that "
+           "KeyProcessor._call_handler was given (label = module:qualified name + closed-over configuration), the "
+           "value of every filter Condition before / after every handler call, and the observed data bits of the call",
            "Ptk/Model/C05.lean is a hand translation of the Buffer state-writing API, _call_handler, "
            "_fix_vi_cursor_position, vi_navigation_mode, ViState.input_mode/reset, validate_and_handle",
+           "Ptk/Model/C05Skel.lean + C05SkelTable.lean are hand translations of filters/app.py, "
+           "KeyProcessor._process/process_keys/_call_handler, get_bindings_for_keys/_starting_with_keys and of the "
+           "skeleton writes of each handler; Gen/C05Bindings.lean (the binding table, atom / handler / key names) is "
+           "regenerated from a live PromptSession by harness/gen_c05.py, together with the pruned source of every "
+           "handler body (c05_skel.handler_writes_full: the statements that can write to the skeleton, in order, with their "
+           "control flow and early returns, plus the body of the Vi operator function a binding closes over) which handler_writes_pin compares with the text each hand-written class was read off; the "
+           "driver resolves atoms and handlers by NAME (theorems: by position, equal when atom_names_pin / "
+           "handler_names_pin hold)",
            "Gen/C05.lean: AST scan of /repo for writes to Buffer private state / selection anchor / multiple cursors "
            "outside buffer.py, pinned by theorem bypass_pin",
            "the default key bindings object is shared between the Applications of one harness process (same "
@@ -98,18 +138,77 @@ TRUSTED = ["harness/c05.py + c05_editor.py: the tracing Buffer subclass logs eve
 ASSUMPTIONS = ["CPython str/list/deque semantics",
                "handlers touch the Buffer state only through the modelled API and the pinned by-passing writes "
                "(checked on every traced key session, not proved)",
+               "skeleton: a PromptSession always has a BufferControl focused (buffer_has_focus), the search buffer is "
+               "never read-only and has no accept handler, the editing mode is not changed by any binding, the binding "
+               "table does not depend on the session options (all compared with the real editor after every key)",
+               "skeleton: macro execution (Vi @x, Emacs C-x e) and the external editor feed keys back into the key "
+               "processor; the model treats those keys as further input, the harness re-synchronises the skeleton "
+               "after such a handler (counted in the evidence)",
                "Escape is judged when it is delivered as a key of its own; an Escape consumed as the <any> argument of "
-               "a pending multi-key binding (f<Esc>, \"<Esc>...) is a recorded known finding",
+               "a pending multi-key binding (f<Esc>, \"<Esc>...) is a recorded known finding (Lean: "
+               "escape_any_slot_witness)",
                "key sessions run without a renderer (DummyOutput), timeouts are injected as explicit <flush> keys"]
-PARTIAL_SCOPE = ["SEARCH, not proof: 'no exception escapes', and the invariants for the whole key state machine "
-                 "(~600 bindings), are only explored by enumerated/random key sequences on the real editor",
-                 "the Lean theorems cover the Buffer API, _call_handler, _fix_vi_cursor_position, the ViState setter "
-                 "and the accept handler; the individual key handlers, key dispatch (C04), Document motions (C02), "
-                 "completion menus, auto-suggest, mouse events, open-in-editor, system prompt and suspend are not modelled",
+PARTIAL_SCOPE = ["SEARCH, not proof: 'no exception escapes', and the cursor / anchor / multiple-cursor invariants of the "
+                 "individual key handlers (~600 bindings), are only explored by enumerated/random key sequences on the "
+                 "real editor",
+                 "the skeleton theorems are about the MODEL of the key state machine; what each handler does to the text "
+                 "enters as data (text changed / edit refused / ...), Document motions (C02), completion menus, "
+                 "auto-suggest, mouse events, CPR, open-in-editor, system prompt and suspend are not modelled",
+                 "escape_to_navigation assumes that no key sequence is pending in the key processor; with a pending "
+                 "sequence the Escape may be consumed by an <any> slot (known finding) - the search half covers those",
                  "the writes that by-pass the API (vi.py text objects writing the selection anchor; block insert writing "
                  "multiple_cursor_positions) are pinned by an AST scan and covered by search only",
                  "hangs (e.g. a Vi macro register that re-executes itself) are outside the property; such sessions are "
                  "cut by a watchdog and counted, not reported"]
+_VI = "src/prompt_toolkit/key_binding/bindings/vi.py"
+_OPD = "create_operator_decorator.operator_decorator.decorator."
+_TOD = "create_text_object_decorator.text_object_decorator.decorator."
+MODELLED = {
+    "src/prompt_toolkit/filters/app.py": [
+        "buffer_has_focus", "control_is_searchable", "emacs_insert_mode", "emacs_mode", "has_arg", "has_focus.test",
+        "has_selection", "is_read_only", "is_searching", "shift_selection_mode", "vi_digraph_mode", "vi_insert_mode",
+        "vi_insert_multiple_mode", "vi_mode", "vi_navigation_mode", "vi_recording_macro", "vi_replace_mode",
+        "vi_replace_single_mode", "vi_selection_mode", "vi_waiting_for_text_object_mode"],
+    "src/prompt_toolkit/key_binding/key_processor.py": [
+        "KeyProcessor._process", "KeyProcessor._get_matches", "KeyProcessor._is_prefix_of_longer_match",
+        "KeyProcessor.process_keys", "KeyProcessor.feed", "KeyProcessor._call_handler",
+        "KeyProcessor._fix_vi_cursor_position", "KeyProcessor._leave_vi_temp_navigation_mode",
+        "KeyPressEvent.append_to_arg_count"],
+    "src/prompt_toolkit/key_binding/key_bindings.py": [
+        "KeyBindings.get_bindings_for_keys.get", "KeyBindings.get_bindings_starting_with_keys.get"],
+    "src/prompt_toolkit/key_binding/vi_state.py": ["ViState.input_mode", "ViState.reset"],
+    "src/prompt_toolkit/key_binding/emacs_state.py": ["EmacsState.is_recording", "EmacsState.start_macro",
+                                                      "EmacsState.end_macro"],
+    "src/prompt_toolkit/search.py": ["start_search", "stop_search", "accept_search"],
+    "src/prompt_toolkit/key_binding/bindings/search.py": [
+        "abort_search", "accept_search", "start_forward_incremental_search", "start_reverse_incremental_search"],
+    "src/prompt_toolkit/key_binding/bindings/basic.py": [
+        "in_quoted_insert", "load_basic_bindings._insert_text", "load_basic_bindings._newline2",
+        "load_basic_bindings._cut"],
+    "src/prompt_toolkit/key_binding/bindings/named_commands.py": ["quoted_insert", "start_kbd_macro", "end_kbd_macro"],
+    "src/prompt_toolkit/key_binding/bindings/emacs.py": [
+        "load_emacs_bindings._start_selection", "load_emacs_bindings._cancel_selection", "load_emacs_bindings._copy",
+        "load_emacs_bindings._cut", "load_emacs_bindings._dash", "load_emacs_bindings._meta_dash",
+        "load_emacs_bindings.handle_digit._", "load_emacs_shift_selection_bindings._start_selection",
+        "load_emacs_shift_selection_bindings._extend_selection", "load_emacs_shift_selection_bindings._cancel",
+        "load_emacs_shift_selection_bindings._delete", "load_emacs_shift_selection_bindings._newline",
+        "load_emacs_shift_selection_bindings._replace_selection", "load_emacs_shift_selection_bindings._yank"],
+    _VI: [_OPD + "_operator_in_navigation", _OPD + "_operator_in_selection", _TOD + "_apply_operator_to_text_object",
+          _TOD + "_move_in_selection_mode", "digraph_symbol_1_given", "in_block_selection"] + [
+        "load_vi_bindings." + n for n in (
+            "_back_to_navigation _insert_mode _navigation_mode _a _A _i _I _change_until_end_of_line "
+            "_change_current_line _substitute _open_above _open_below insert_in_block_selection _append_after_block "
+            "_replace _replace_mode _replace_single _visual _visual_line _visual_block _visual2 _visual_line2 "
+            "_visual_block2 _visual_auto_word _cut _digraph _digraph1 _create_digraph _quick_normal_mode _start_macro "
+            "_stop_macro _0_arg create_delete_and_change_operators.delete_or_change_operator").split()],
+    "src/prompt_toolkit/buffer.py": [
+        "Buffer.cursor_position", "Buffer.text", "Buffer.set_document", "Buffer.working_index", "Buffer.reset",
+        "Buffer._text_changed", "Buffer.save_to_undo_stack", "Buffer.undo", "Buffer.redo", "Buffer.start_selection",
+        "Buffer.exit_selection", "Buffer.copy_selection", "Buffer.insert_text", "Buffer.delete",
+        "Buffer.delete_before_cursor", "Buffer._set_history_search", "Buffer._history_matches",
+        "Buffer.history_forward", "Buffer.history_backward", "Buffer.go_to_history", "Buffer.validate_and_handle"],
+    "src/prompt_toolkit/shortcuts/prompt.py": ["PromptSession._create_default_buffer.accept"],
+}
 
 KEY_TIMEOUT_S = 30
 
@@ -507,6 +606,194 @@ def run_call(case):
 
 
 # =====================================================================================
+# the mode skeleton (lean/Ptk/Model/C05Skel.lean): projection of the live editor, per-key protocol
+# =====================================================================================
+# atoms of the binding filters that the MODEL evaluates from the skeleton (all others are data whose
+# value is sent along with every key); must name the non-`.env` entries of `Skel.atomTable`
+SK_ATOMS = {
+    "app:buffer_has_focus", "app:control_is_searchable", "app:emacs_insert_mode", "app:emacs_mode", "app:has_arg",
+    "app:has_focus.has_focus_filter[test=app:has_focus.test[value='DEFAULT_BUFFER']]", "app:has_selection",
+    "app:is_read_only", "app:is_searching", "app:shift_selection_mode", "app:vi_digraph_mode",
+    "app:vi_insert_mode", "app:vi_insert_multiple_mode", "app:vi_mode", "app:vi_navigation_mode",
+    "app:vi_recording_macro", "app:vi_replace_mode", "app:vi_replace_single_mode", "app:vi_selection_mode",
+    "app:vi_waiting_for_text_object_mode", "basic:in_quoted_insert", "emacs:is_arg", "emacs:is_returnable",
+    "vi:digraph_symbol_1_given", "vi:in_block_selection", "vi:is_returnable"}
+# handlers that feed keys back into the key processor (macro execution, external editor): the model
+# treats the keys they feed as further input, so the harness re-synchronises the skeleton after them
+SK_RESYNC = {"vi:load_vi_bindings._execute_macro", "named_commands:call_last_kbd_macro",
+             "named_commands:edit_and_execute", "mouse:load_mouse_bindings._scroll_up",
+             "mouse:load_mouse_bindings._scroll_down"}
+_SK: dict = {}
+
+
+def _find_paths(bs, names):
+    """for every atom name a path (binding index, attribute, steps) to a Condition with that name"""
+    paths = {}
+
+    def walk(f, i, attr, path):
+        if hasattr(f, "filters"):
+            for j, x in enumerate(f.filters):
+                walk(x, i, attr, path + (j,))
+        elif type(f).__name__ == "_Invert":
+            walk(f.filter, i, attr, path + (-1,))
+        elif hasattr(f, "func"):
+            n = S.fn_label(f.func)
+            if n not in paths:
+                paths[n] = (i, attr, path)
+
+    for i, b in enumerate(bs):
+        walk(b.filter, i, "filter", ())
+        walk(b.eager, i, "eager", ())
+        if len(paths) == len(names):
+            break
+    return paths
+
+
+def sk_ctx():
+    """per process: the table of the running code (names, ids, hash)"""
+    if not _SK:
+        rows, atoms, same = S.canonical_app()
+        an, hn, kn = S.table_names(rows, atoms)
+        from prompt_toolkit.key_binding.bindings.vi import vi_register_names
+        _SK.update(atoms=an, handlers={n: i for i, n in enumerate(hn)}, kids=S.KeyIds(kn), hash=S.table_hash(rows, atoms),
+                   nrows=len(rows), nh=len(hn), regs=vi_register_names, checked=set(), paths=None,
+                   any=S.NAMED_BASE + kn.index("<any>") if "<any>" in kn else S.NAMED_BASE + 999999,
+                   enter=S.NAMED_BASE + kn.index("c-m") if "c-m" in kn else S.NAMED_BASE + 999999)
+    return _SK
+
+
+def sk_atoms(ed, cfg_key):
+    """the Condition objects of this session, by atom name (full table check once per configuration)"""
+    ctx = sk_ctx()
+    app = ed.app
+    if cfg_key not in ctx["checked"] or ctx["paths"] is None:
+        rows, atoms = S.table(app)
+        if S.table_hash(rows, atoms) != ctx["hash"]:
+            raise RuntimeError("the binding table of this session differs from the generated one")
+        ctx["checked"].add(cfg_key)
+        if ctx["paths"] is None:
+            ctx["paths"] = _find_paths(S.live_bindings(app), ctx["atoms"])
+        return [atoms[n] for n in ctx["atoms"]]
+    bs = S.live_bindings(app)
+    if len(bs) != ctx["nrows"]:
+        raise RuntimeError("the binding table of this session differs from the generated one")
+    out = []
+    for n in ctx["atoms"]:
+        i, attr, path = ctx["paths"][n]
+        f = getattr(bs[i], attr)
+        for st in path:
+            f = f.filter if st < 0 else f.filters[st]
+        out.append(f)
+    return out
+
+
+def sk_enc_keys(kp, ctx):
+    ks = [(ctx["kids"].of(k.key), S.data_class(k.data, ctx["regs"])) for k in kp.key_buffer]
+    return " ".join([str(len(ks))] + [f"{a} {b}" for a, b in ks])
+
+
+def sk_state(ed, ctx) -> str:
+    """the skeleton projection of the live editor (encoding of Drivers/C05.lean SkD.encSk)"""
+    app = ed.app
+    vs, kp = app.vi_state, app.key_processor
+
+    def sel(b):
+        x = b.selection_state
+        return "N" if x is None else f"{E.SEL_TYPES.get(x.type, 9)}{int(bool(x.shift_mode))}"
+
+    op = vs.operator_func
+    if op is None:
+        ops = "N"
+    else:
+        # "will the pending operator end with input_mode = INSERT": a change operator; `"xc` only when the
+        # register name x (taken from the operator's own key sequence) exists
+        lab = S.fn_label(op)
+        change = "delete_only=False" in lab
+        if change and "with_register=True" in lab:
+            try:
+                cells = dict(zip(op.__code__.co_freevars, op.__closure__))
+                data = cells["operator_key_sequence"].cell_contents[1].data
+                change = S.data_class(data, ctx["regs"]) != 0
+            except Exception:  # noqa
+                pass
+        ops = "1" if change else "0"
+    rr = vs.recording_register
+    rec = "N" if rr is None else ("1" if rr else "0")
+    arg = "N" if kp.arg is None else ("1" if kp.arg == "-" else "0")
+    return (f"{enc_bool(app.editing_mode == EditingMode.VI)} {enc_bool(ed.read_only)} {MODES.index(vs.input_mode)} "
+            f"{enc_bool(vs.temporary_navigation_mode)} {ops} {enc_bool(vs.operator_arg is not None)} "
+            f"{enc_bool(vs.waiting_for_digraph)} {enc_bool(vs.digraph_symbol1 is not None)} "
+            f"{sel(ed.buffer)} {sel(ed.search_buffer)} {enc_bool(app.layout.is_searching)} "
+            f"{enc_bool(app.quoted_insert)} {rec} {enc_bool(app.emacs_state.is_recording)} {arg} "
+            f"{enc_bool(app.is_done)} {sk_enc_keys(kp, ctx)}")
+
+
+class SkSession:
+    """captures, for every KeyPress fed to the real key processor, what the model needs as input (the
+    data atoms before / after every handler call, the data of every handler call) and what it must
+    reproduce (the handlers called, the skeleton afterwards, the value of the skeleton atoms)"""
+
+    def __init__(self, ed, cfg_key):
+        self.ed = ed
+        self.ctx = sk_ctx()
+        self.atoms = sk_atoms(ed, cfg_key)
+        self.names = self.ctx["atoms"]
+        self.calls = []
+        self.resyncs = 0
+        kp = ed.app.key_processor
+        orig = kp._call_handler
+        me = self
+
+        def wrapped(handler, key_sequence):
+            app = ed.app
+            b = app.current_buffer
+            x = b.selection_state
+            pre = (b.cursor_position, None if x is None else x.original_cursor_position, b.text == "",
+                   ed.buffer._tr_tc, ed.search_buffer._tr_tc, ed.buffer._tr_anchor + ed.search_buffer._tr_anchor,
+                   len(ed.log))
+            try:
+                return orig(handler, key_sequence)
+            finally:
+                ro = any(o == "ro" for (_, _, o, _) in ed.log[pre[6]:])
+                hd = (ed.buffer._tr_tc != pre[3], ed.search_buffer._tr_tc != pre[4], ro,
+                      ed.buffer._tr_anchor + ed.search_buffer._tr_anchor != pre[5], app.is_done,
+                      b.cursor_position != pre[0], pre[1] is not None and b.cursor_position == pre[1], pre[2])
+                lab = S.fn_label(handler.handler)
+                me.calls.append((me.ctx["handlers"].get(lab, -1), lab, "".join(enc_bool(v) for v in hd), me.env()))
+
+        kp._call_handler = wrapped
+
+    def env(self) -> str:
+        return "".join("1" if f() else "0" for f in self.atoms)
+
+    def init_lines(self):
+        c = self.ctx
+        st = sk_state(self.ed, c)
+        return (["skhello", "skset " + st],
+                [f"{c['hash']} {c['nrows']} {len(c['atoms'])} {c['nh']} {c['any']} {c['enter']}", st])
+
+    def feed(self, kpress):
+        """feed one KeyPress to the real editor -> (model line, impl line); exceptions propagate"""
+        c = self.ctx
+        flush = kpress is E._Flush
+        kid = 0 if flush else c["kids"].of(kpress.key)
+        dc = 0 if flush else S.data_class(kpress.data, c["regs"])
+        env0 = self.env()
+        del self.calls[:]
+        self.ed.feed_key(kpress)
+        st = sk_state(self.ed, c)
+        if any(lab in SK_RESYNC for (_, lab, _, _) in self.calls):
+            self.resyncs += 1
+            return "skset " + st, st
+        line = f"skkey {kid} {dc} {enc_bool(flush)} {env0} {len(self.calls)}"
+        for (_, _, hd, env) in self.calls:
+            line += f" {hd} {env}"
+        envn = self.env()
+        abits = "".join((envn[i] if n in SK_ATOMS else "-") for i, n in enumerate(self.names))
+        return line, f"{st} h={','.join(str(h) for (h, _, _, _) in self.calls)} a={abits}"
+
+
+# =====================================================================================
 # kind "keys": the real editor, key by key, traced
 # =====================================================================================
 def trace_op_line(k, op):
@@ -561,7 +848,7 @@ def run_keys(case):
     if key in _KEYS_CACHE:
         return _KEYS_CACHE[key]
     model, impl, viol = [], [], []
-    stats = {"keys": 0, "prims": 0, "hang": 0, "done": 0, "handlers": 0}
+    stats = {"keys": 0, "prims": 0, "hang": 0, "done": 0, "handlers": 0, "sk": 0, "sk_resync": 0}
 
     def on_alarm(*a):
         raise _Hang()
@@ -578,6 +865,21 @@ def run_keys(case):
             model += [init_line(0, i0), init_line(1, i1)]
             impl += [enc_state(buf_state(ed.buffer)), enc_state(buf_state(ed.search_buffer))]
             log = ed.log
+            sk = SkSession(ed, (case["vi"], case["ml"], case["ro"], bool(case.get("hs")), bool(case.get("sug")),
+                                bool(case.get("val"))))
+            m0, r0 = sk.init_lines()
+            model += m0
+            impl += r0
+
+            def feed_tok(t):
+                """one key token through the real editor; -> skeleton (model line, impl line) per KeyPress"""
+                lines = []
+                for kpress in E.key_presses(t):
+                    if ed.done:
+                        break
+                    lines.append(sk.feed(kpress))
+                return lines
+
             handler_ran = False
             bells = [0]
             orig_bell = app.output.bell
@@ -598,8 +900,9 @@ def run_keys(case):
                 prev_seq = kp._previous_key_sequence
                 del log[:]
                 crashed = None
+                sk_lines = []
                 try:
-                    ed.feed(tok)
+                    sk_lines = feed_tok(tok)
                 except _Hang:
                     raise
                 except BaseException as e:  # noqa: the property: no exception escapes the editor
@@ -615,6 +918,10 @@ def run_keys(case):
                     stats["prims"] += 1
                 model += ["sync 0", "sync 1"]
                 impl += [enc_state(buf_state(ed.buffer)), enc_state(buf_state(ed.search_buffer))]
+                for (ml_, il_) in sk_lines:
+                    model.append(ml_)
+                    impl.append(il_)
+                    stats["sk"] += 1
                 if crashed:
                     viol.append(crashed)
                     break
@@ -638,8 +945,9 @@ def run_keys(case):
                 if tok == "escape" and case["vi"] and not quoted and not ed.done:
                     # Escape + the timeout: must be in navigation mode with nothing pending
                     del log[:]
+                    sk_lines = []
                     try:
-                        ed.feed("<flush>")
+                        sk_lines = feed_tok("<flush>")
                     except _Hang:
                         raise
                     except BaseException as e:  # noqa
@@ -651,9 +959,13 @@ def run_keys(case):
                         impl.append(f"{outcome} {enc_state(st)}")
                     model += ["sync 0", "sync 1"]
                     impl += [enc_state(buf_state(ed.buffer)), enc_state(buf_state(ed.search_buffer))]
+                    for (ml_, il_) in sk_lines:
+                        model.append(ml_)
+                        impl.append(il_)
+                        stats["sk"] += 1
                     vs = app.vi_state
                     if not ed.done and not (
-                            (vs.input_mode == InputMode.NAVIGATION or app.current_buffer.read_only())
+                            vs.input_mode == InputMode.NAVIGATION      # (also in a read-only buffer)
                             and vs.operator_func is None and vs.operator_arg is None
                             and not vs.waiting_for_digraph and vs.digraph_symbol1 is None):
                         hname = getattr(getattr(kp._previous_handler, "handler", None), "__name__", "?")
@@ -675,6 +987,7 @@ def run_keys(case):
                     break
                 if viol:
                     break
+            stats["sk_resync"] = sk.resyncs
     except _Hang:
         stats["hang"] = 1
     finally:
@@ -857,7 +1170,7 @@ def gen_keys_cases(tier, rng):
                                          PREFIXES[name] + [k1, k2]))
     # Vi grammar: [count] operator [count] motion/text-object, and visual-mode selections + operator
     operators = [["d"], ["c"], ["y"], [">"], ["<"], ["g", "~"], ["g", "u"], ["g", "U"], ["g", "?"], ["g", "q"],
-                 ["\"", "a", "d"], ["\"", "A", "y"]]
+                 ["\"", "a", "d"], ["\"", "A", "y"], ["\"", "a", "c"], ["\"", "A", "c"], ["\"", "A", "d"]]
     objs = [[a, o] for a in "ia" for o in "wW()[]{}<>\"'`tbBps"] + \
            [["f", "x"], ["t", "c"], ["F", "a"], ["T", "x"], ["g", "g"], ["g", "e"], ["g", "E"], ["g", "_"], ["g", "m"],
             ["}"], ["{"], ["%"], ["$"], ["0"], ["^"], ["w"], ["b"], ["e"], ["G"], ["j"], ["k"], ["h"], ["l"], ["H"], ["L"],
@@ -873,7 +1186,7 @@ def gen_keys_cases(tier, rng):
     for vis in (["v"], ["V"], ["c-v"]):
         for ob in objs:
             for vop in (["d"], ["c"], ["y"], ["~"], ["u"], ["U"], ["J"], [">"], ["<"], ["r", "x"], ["I", "z"],
-                        ["A", "z"], ["x"], ["p"]):
+                        ["A", "z"], ["x"], ["p"], ["\"", "a", "c"], ["\"", "A", "c"], ["\"", "A", "d"]):
                 grammar.append(keys_case(True, True, False, vdocs[0], 5, HISTS[1], CLIPS[2],
                                          ["escape", "<flush>"] + vis + ob + vop + ["escape"]))
     # Emacs numeric arguments incl. negative and zero (Esc -, Esc 0, Esc - 3, Esc 1 2) before every key
@@ -923,6 +1236,7 @@ def gen_keys_cases(tier, rng):
     else:
         out += rng.sample(grammar, 250) + rng.sample(negarg, 400)
         out += blk_core + rng.sample(blk_more, 200) + comp_core + rng.sample(comp_more, 300)
+    out += gen_skeleton_cases(tier, rng)
     nrand = 1200 if tier == "quick" else 30000
     for _ in range(nrand):
         vi = rng.random() < 0.65
@@ -940,6 +1254,98 @@ def gen_keys_cases(tier, rng):
     return out
 
 
+# representatives of every key CLASS of the mode skeleton (lean/Ptk/Model/C05Skel.lean)
+VI_REPS = ["escape", "c-o", "v", "V", "c-v", "d", "c", "y", ">", "g", "~", "w", "b", "$", "j", "i", "a", "I", "A",
+           "o", "R", "r", "s", "C", "x", "c-k", "c-q", "q", "@", ":", "2", "0", "/", "c-m", "c-r", "c-g", "J", "u",
+           "p", "f", "\"", "<flush>", "left", "up", "c-h", "delete", "insert", "z", "<paste:p>", "<paste:>", "c-j",
+           "c-x", "c-l", "c-n"]
+VI_CORE = ["escape", "c-o", "v", "V", "c-v", "d", "c", "y", "g", "w", "i", "A", "R", "r", "x", "c-k", "c-q", "q", "@",
+           "2", "0", "/", "c-m", "c-g", "u", "f", "\"", "<flush>", "left", "insert", "<paste:>", "c-j", "c-h", "I"]
+EMACS_REPS = ["escape", "c-@", "s-right", "s-left", "c-s-end", "s-up", "right", "left", "x", "c-g", "c-w", "c-q", "c-x",
+              "(", ")", "e", "c-r", "c-s", "c-m", "c-j", "-", "3", "0", "c-y", "c-h", "c-c", "<", ">", "c-o", "w", "<flush>",
+              "<paste:p>", "c-_", "n", "/", "c-d", "up"]
+SK_STARTS = {"vi-ins": (True, []), "vi-nav": (True, ["escape", "<flush>"]), "vi-rep": (True, ["escape", "<flush>", "R"]),
+             "vi-vis": (True, ["escape", "<flush>", "v"]), "vi-search": (True, ["escape", "<flush>", "/"]),
+             "emacs": (False, []), "emacs-sel": (False, ["c-@", "right"]), "emacs-search": (False, ["c-r"])}
+
+
+def gen_skeleton_cases(tier, rng):
+    """key-class sequences for the mode-skeleton correspondence (and for the Escape / invariant oracle):
+    exhaustive over representatives of every key class up to a length bound, from every start mode"""
+    import itertools
+    out = []
+    doc, cur = "ab cd\nef", 4
+
+    def case(vi, ro, ops, text=doc, c=cur, clip=CLIPS[1]):
+        return keys_case(vi, True, ro, text, c, HISTS[1], clip, ops)
+
+    # (1) the families around temporary navigation mode: from insert / replace / search-insert mode C-o, then a
+    #     selection / operator / digraph / count / pending <any> key, optional motions, Escape, and a probe key
+    pres = [[], ["escape", "<flush>", "R"], ["escape", "<flush>", "/"], ["escape", "<flush>", "A"]]
+    heads = [["v"], ["V"], ["c-v"], ["d"], ["c"], ["y"], ["g", "~"], [">"], ["\"", "a", "d"], ["\"", "A", "c", "w"],
+             ["\"", "a", "c", "w"], ["v", "\"", "A", "c"], ["v", "\"", "a", "c"], ["v", "\"", "A", "d"], ["2"], ["f"], ["r"],
+             ["q", "a"], ["c-k"], ["v", "i", "w"], ["V", "j"], ["c-v", "l", "j"], ["/"], ["R"], ["i"], ["2", "d"]]
+    mids = [[], ["l"], ["b"], ["2"]]
+    for pre in pres:
+        for hd in heads:
+            for mid in mids:
+                for co in (["c-o"], ["c-k", "a", "c-o"] if hd == ["v"] else None):
+                    if co is None:
+                        continue
+                    out.append(case(True, False, pre + co + hd + mid + ["escape", "x", "escape"]))
+    # (2) selection + Escape from every mode (incl. read-only, Emacs: Escape is a prefix there)
+    for name, (vi, pre) in SK_STARTS.items():
+        for selk in (["v"], ["V"], ["c-v"], ["c-o", "v"], ["c-o", "V"], ["c-o", "c-v"], ["c-@", "right"], ["s-right"],
+                     ["s-right", "s-left"]):
+            for ro in (False, True):
+                out.append(case(vi, ro, pre + selk + ["escape", "<flush>", "x"]))
+                out.append(case(vi, ro, pre + selk + ["l", "escape", "escape", "x"]))
+    # (3) every sequence of key-class representatives up to a length bound, from every start mode
+    def seqs(reps, n):
+        return itertools.product(reps, repeat=n)
+    if tier == "quick":
+        plan = [("vi-nav", VI_CORE, 2), ("vi-rep", VI_CORE, 1), ("vi-vis", VI_REPS, 1),
+                ("vi-search", VI_REPS, 1), ("vi-ins", VI_REPS, 1), ("vi-nav", VI_REPS, 1),
+                ("emacs-sel", EMACS_REPS, 1), ("emacs-search", EMACS_REPS, 1), ("emacs", EMACS_REPS, 1)]
+        # pairs from the insert states: first keys that are commands there (the others self-insert)
+        for k1 in ["escape", "c-o", "c-k", "c-q", "c-v", "insert", "c-j", "c-m", "c-h", "left", "<paste:>", "<flush>", "x"]:
+            for k2 in VI_CORE:
+                out.append(case(True, False, [k1, k2, "escape"]))
+        for k1 in EMACS_REPS[:20]:
+            for k2 in EMACS_REPS:
+                out.append(case(False, False, [k1, k2]))
+    else:
+        plan = [("vi-ins", VI_REPS, 2), ("vi-nav", VI_REPS, 2), ("vi-rep", VI_REPS, 2), ("vi-vis", VI_REPS, 2),
+                ("vi-search", VI_REPS, 2), ("emacs", EMACS_REPS, 2), ("emacs-sel", EMACS_REPS, 2),
+                ("emacs-search", EMACS_REPS, 2)]
+        # triples: the first key from the keys that change the mode skeleton
+        for k1 in ["escape", "c-o", "c-k", "c-q", "c-v", "insert", "c-j", "<flush>"]:
+            for k2, k3 in seqs(VI_CORE, 2):
+                out.append(case(True, False, [k1, k2, k3, "escape"]))
+        for k1 in VI_CORE[:18]:
+            for k2, k3 in seqs(VI_CORE, 2):
+                out.append(case(True, False, ["escape", "<flush>", k1, k2, k3, "escape"]))
+        for k1 in EMACS_REPS[:12]:
+            for k2, k3 in seqs(EMACS_REPS[:24], 2):
+                out.append(case(False, False, [k1, k2, k3]))
+    for name, reps, n in plan:
+        vi, pre = SK_STARTS[name]
+        for tup in seqs(reps, n):
+            out.append(case(vi, False, pre + list(tup) + (["escape"] if vi else [])))
+    # read-only buffer: single keys and pairs over the core set (navigation bindings are taken in every input mode)
+    for tup in itertools.chain(seqs(VI_CORE, 1), seqs(VI_CORE[:16], 2)):
+        out.append(case(True, True, list(tup) + ["escape"]))
+    if tier == "quick":
+        # a seeded sample of triples
+        for _ in range(300):
+            name = rng.choice(["vi-ins", "vi-nav", "vi-vis", "vi-rep", "vi-search", "emacs", "emacs-sel"])
+            vi, pre = SK_STARTS[name]
+            reps = VI_REPS if vi else EMACS_REPS
+            out.append(case(vi, rng.random() < 0.1, pre + [rng.choice(reps) for _ in range(3)] + (["escape"] if vi else []),
+                            text=rng.choice([doc, "", "a"]), c=0))
+    return out
+
+
 def _keys_worker(chunk):
     """real editor + Lean driver + comparison for a chunk of key sessions; returns small verdicts"""
     runs, lines, spans = [], [], []
@@ -948,7 +1354,7 @@ def _keys_worker(chunk):
             r = run_keys(c)
         except Exception as e:  # harness problem: reported as a divergence by the main pass
             r = {"model": ["harness-exception"], "impl": ["harness-exception:" + repr(e)[:200]], "viol": [],
-                 "stats": {"keys": 0, "prims": 0, "hang": 0, "done": 0, "handlers": 0}}
+                 "stats": {"keys": 0, "prims": 0, "hang": 0, "done": 0, "handlers": 0, "sk": 0, "sk_resync": 0}}
         spans.append((len(lines), len(r["model"])))
         lines += r["model"]
         runs.append(r)
@@ -1199,7 +1605,8 @@ def sample_view(case):
 def nontrivial(case):
     if case["kind"] == "keys":
         p = _PRE.get(case.get("tkey"))
-        return bool(p) and p["stats"]["prims"] > 0  # at least one API call was made by a handler
+        # at least one API call was made by a handler, or a handler ran (skeleton step)
+        return bool(p) and (p["stats"]["prims"] > 0 or p["stats"]["handlers"] > 0)
     return len(case["ops"]) > 0
 
 
@@ -1207,7 +1614,8 @@ def distribution(cases_):
     d = {"kind": {}, "keys_mode": {}, "keys_len": {}, "api_ops": {},
          "search": {"note": "the key-session part is SEARCH (exploration of the real editor), not proof",
                     "key_sessions": 0, "keys_fed": 0, "handler_calls": 0, "api_calls_traced": 0,
-                    "model_lines_replayed": 0, "sessions_accepted": 0, "sessions_cut_by_watchdog": 0,
+                    "model_lines_replayed": 0, "skeleton_keys_compared": 0, "skeleton_resyncs_after_macro": 0,
+                    "sessions_accepted": 0, "sessions_cut_by_watchdog": 0,
                     "read_only_sessions": 0,
                     "multiline_sessions": 0, "vi_sessions": 0, "emacs_sessions": 0}}
     s = d["search"]
@@ -1225,6 +1633,8 @@ def distribution(cases_):
                 s["handler_calls"] += p["stats"]["handlers"]
                 s["api_calls_traced"] += p["stats"]["prims"]
                 s["model_lines_replayed"] += p["nlines"]
+                s["skeleton_keys_compared"] += p["stats"].get("sk", 0)
+                s["skeleton_resyncs_after_macro"] += p["stats"].get("sk_resync", 0)
                 s["sessions_accepted"] += p["stats"]["done"]
                 s["sessions_cut_by_watchdog"] += p["stats"]["hang"]
             s["read_only_sessions"] += int(bool(c["ro"]))
@@ -1251,7 +1661,8 @@ def _patch_evidence():
             ev["coverage"]["correspondence"]["note"] = (
                 "key sessions are replayed on the model inside the generating worker; their "
                 f"{dist['search']['model_lines_replayed']} protocol lines are included in model_lines")
-            ev["coverage"]["level_detail"] = "proof (partial): choke points proved, key state machine searched"
+            ev["coverage"]["level_detail"] = ("proof (partial): choke points and the mode skeleton of the key state "
+                                              "machine proved; crash-freedom and per-handler cursor invariants searched")
             core.write_json(p, ev)
     except Exception:
         pass
